@@ -10,20 +10,9 @@ func init() {
 				n = 3
 			}
 			det := f4Job("programs", "VerifDeterminism", 0, []string{"ran"}, []string{"C05-same-output"},
-				"3 programs (static/instance namesakes, the same class name in two modules, overloaded builtin use) x 12 output modes (-i, --suggest, --hover, --llm-nav, --llm-nav --target, --llm-define [--class], --llm-class, --extends, --define, diagnostics, --llm-nav --all), each analysed twice in one path; every range over TSignatures / ClassInheritanceMap / MethodCallPoint / MethodCalleePoint / TSignatureDocument iterates forward or backward (one solver-chosen schedule variable per range statement, independent in the two runs)")
+				"5 programs (static/instance namesakes, the same class name in two modules, in doubly nested modules, overloaded builtin use, inheritance + mixins) x 17 output modes (-i, --suggest, --hover, --llm-nav, --llm-nav --target, --llm-define [--class], --llm-class, --extends, --define, diagnostics, --llm-nav --all), each analysed twice in one path; every range over TSignatures / ClassInheritanceMap / MethodCallPoint / MethodCalleePoint / TSignatureDocument iterates forward or backward (one solver-chosen schedule variable per range statement, independent in the two runs)")
 			det.Budget = 12000000
-			cdet := f4Job("corpus-determinism", "VerifCorpusDeterminism", 0, []string{"ran"}, []string{"C05-same-output"},
-				"the repository's example programs (/repo/test/*.rb with a plain invocation and at most 25 lines; thorough tier only) x 9 output modes (-i, --suggest, --hover, --llm-nav, --llm-define, --llm-class, --define, diagnostics, --llm-nav --all; row-based modes on the last row), each analysed twice in one path with the iteration order of the five global maps flipped per range statement")
-			cdet.Config, cdet.Budget = "", 80000000
-			if tier != "thorough" {
-				// two analyses per path and a schedule variable per range statement: thorough tier only
-				return []*Job{
-					{Name: "sorted-signatures", Pkg: "ti/base", Entry: "VerifSortedSigs", N: n, Budget: 2000000, Reach: []string{"sorted"}, Asserts: []string{"C05-sorted"}, Replay: "kernel", Cross: true, Config: "core",
-						Bound: sprintf("GetSortedTSignatures / GetSortedTSignaturesByClass on a TSignatures map of %d entries whose Method/Class/Frame/IsStatic/Detail are solver variables over 2-element domains (pairwise distinct), arbitrary map iteration order (a solver-chosen permutation at every range statement), two runs compared; the real slices.SortFunc (pdqsort) is interpreted", n)},
-					det,
-				}
-			}
-			return []*Job{cdet,
+			return []*Job{
 				{Name: "sorted-signatures", Pkg: "ti/base", Entry: "VerifSortedSigs", N: n, Budget: 2000000, Reach: []string{"sorted"}, Asserts: []string{"C05-sorted"}, Replay: "kernel", Cross: true, Config: "core",
 					Bound: sprintf("GetSortedTSignatures / GetSortedTSignaturesByClass on a TSignatures map of %d entries whose Method/Class/Frame/IsStatic/Detail are solver variables over 2-element domains (pairwise distinct), arbitrary map iteration order (a solver-chosen permutation at every range statement), two runs compared; the real slices.SortFunc (pdqsort) is interpreted", n)},
 				det,
